@@ -69,7 +69,7 @@ pub fn from_records(items: &[NItem<'_>], full_lines: bool) -> Universe {
                                 c.lines.push(v);
                             }
                         }
-                        if e > s + 1 {
+                        if e > s.saturating_add(1) {
                             let mid = s + (e - s) / 2;
                             if c.lines.len() < 400 && !c.lines.contains(&mid) {
                                 c.lines.push(mid);
